@@ -257,6 +257,10 @@ func runC34(env *mc.Env) {
 		if len(prefix) == depth {
 			return
 		}
+		// quick tier: depth-3 histories only from the two state-building first steps (all of depth <= 2)
+		if !env.Thorough() && len(prefix) == 2 && prefix[0] != "save-vault" && prefix[0] != "save-box" {
+			return
+		}
 		for _, o := range ops {
 			rec(append(prefix, o.Name))
 		}
@@ -345,7 +349,7 @@ func replayC34(env *mc.Env, raw json.RawMessage) (bool, string) {
 func init() {
 	mc.Register(&mc.Check{
 		ID: "C34",
-		Rule: "corpus: feature snippets (arithmetic, strings, containers, optionals, casts, closures, control flow, composites/resources, interfaces with default functions and conditions, references, storage, capabilities, attachments, events, built-ins) over a deployed contract and script-local declarations: every snippet as script and as transaction, every ordered pair of snippets, every transaction history to depth 3 over 15 ops, plus the proggen fragments; each run by interpreter and VM from identical ledgers; " +
+		Rule: "corpus: feature snippets (arithmetic, strings, containers, optionals, casts, closures, control flow, composites/resources, interfaces with default functions and conditions, references, storage, capabilities, attachments, events, built-ins) over a deployed contract and script-local declarations: every snippet as script and as transaction, every ordered pair of snippets, every transaction history to depth 2 and those of depth 3 that start by saving a vault or a box (thorough: all to depth 4) over 17 ops, plus the proggen fragments; each run by interpreter and VM from identical ledgers; " +
 			"oracle: same error class and innermost cause type, same result String(), logs, events, committed registers; non-trivial = distinct program/history on which both engines were compared to the end",
 		Assumptions: []string{
 			"the interpreter is the reference only in the sense of the property (equivalence); a difference is reported whichever engine is right",
